@@ -42,7 +42,7 @@ def replay_instances(ctx):
         inst("basic-push", push=True),
         # two concurrently open streams (routing, per-protocol counts of 2, a table change between the
         # open and the first use of one stream while the other is served)
-        inst("basic-2streams", slots=2, reqs="MCReqs2", entries="MCEntriesSmall"),
+        inst("basic-2streams", slots=2, reqs="MCReqs2", entries="MCEntriesSmall", tokens="MCTokens2"),
         # the second host implementation: always negotiates
         inst("blank-2streams", host="blank", slots=2, reqs="MCReqs2", entries="MCEntriesSmall"),
         # BOTH hosts serve and dial on the one connection (one entry each out of 3, request lists of 1..2 ids): what a
@@ -53,9 +53,7 @@ def replay_instances(ctx):
         out += [
             inst("basic-nopush-t3", push=False, maxtbl=3),
             inst("basic-2streams-r3", slots=2, entries="MCEntriesSmall"),
-            inst("basic-2streams-push", push=True, slots=2, reqs="MCReqs2"),
-            inst("blank-t3", host="blank", maxtbl=3),
-            inst("bidir-nopush-t2", bidir=True, maxtbl=2, reqs="MCReqs2ab", entries="MCEntriesBi", tokens="MCTokens1"),
+            inst("blank-r3", host="blank", maxtbl=2),
             inst("bidir-push", bidir=True, push=True, maxtbl=2, reqs="MCReqs2ab", entries="MCEntriesBi", tokens="MCTokens1"),
         ]
     return out
@@ -65,9 +63,11 @@ def exhaustive_instances(ctx):
     """Bigger instances checked exhaustively only."""
     if ctx.tier == "thorough":
         return [inst("big-2streams-t3", slots=2, maxtbl=3),
-                inst("big-2streams-t4", slots=2, maxtbl=4, reqs="MCReqs2"), inst("big-1stream-t4", maxtbl=4),
+                inst("big-1stream-t4", maxtbl=4),
+                inst("big-bidir-t2", bidir=True, maxtbl=2, reqs="MCReqs2ab", entries="MCEntriesBi", tokens="MCTokens1"),
+                inst("big-2streams-push", push=True, slots=2, reqs="MCReqs2"), inst("big-blank-t3", host="blank", maxtbl=3),
                 inst("big-bidir-2streams", bidir=True, slots=2, maxtbl=1, reqs="MCReqs2ab", entries="MCEntriesBi", tokens="MCTokens1")]
-    return [inst("big-2streams-q", slots=2, maxtbl=2, reqs="MCReqs2")]
+    return []   # quick: the printing runs of the replay instances check every invariant and property themselves
 
 
 def _cfg(consts, replace=None):
